@@ -39,7 +39,7 @@ TIMEOUT_S = {'quick': 600, 'thorough': 3300}
 BUDGET_A, BUDGET_B = 1000, 5_000_000
 
 
-FUZZ_RUNS = {'quick': 20000, 'thorough': 1500000}     # executions of the coverage-guided (atheris / libFuzzer) leg
+FUZZ_RUNS = {'quick': 20000, 'thorough': 1000000}     # executions of the coverage-guided (atheris / libFuzzer) leg
 
 
 def plan(tier, seed):
